@@ -528,7 +528,7 @@ func runC19(r *Runner, g *Gen, tier string) string {
 	}
 	internLargeOps(r, scale(tier, 6, 200))
 	// thousands of distinct values through one field (beyond any table size limit one might pick)
-	for _, n := range []int{63, 64, 65, 255, 256, 257, 1023, 1025, scale(tier, 10000, 70000)} {
+	for _, n := range []int{63, 64, 65, 255, 256, 257, 1023, 1025, scale(tier, 20000, 70000)} {
 		r.Do(L(A("internmany"), A(fmt.Sprint(n))), true, "internmany")
 	}
 	internSchedOps(r, g, scale(tier, 600, 40000))
